@@ -55,13 +55,23 @@ def run(check):
     if not sites:
       r_gate.cannot_decide('no database.%s() site in writeCachedDataPoints' % kind)
       continue
+    want = {'write': 'UPDATE_BUCKET', 'create': 'CREATE_BUCKET'}[kind]
+
+    def bname(e, _depth=0):
+      # the module-level bucket an expression stands for (a local alias `update_bucket = UPDATE_BUCKET` is followed)
+      from ..rulelib import local_sources
+      if isinstance(e, ast.Name) and e.id not in fn.module.globals and _depth < 3:
+        srcs = [x for x in local_sources(fn, e.id) if isinstance(x, ast.AST)]
+        names = {bname(x, _depth + 1) for x in srcs}
+        return names.pop() if len(names) == 1 else dotted(e)
+      return dotted(e)
     for s in sites:
       gates = set()          # nodes that are unconditional (blocking) gates
       cond_gates = []        # test nodes whose True edge is the gate
       bucket_names = set()
       for n in g.nodes:
         for c in g.calls(n):
-          if bucket_drain_call(c) and cost_ok(c):
+          if bucket_drain_call(c) and cost_ok(c) and bname(c.func.value) == want:
             name = dotted(c.func.value)
             if n.kind == 'test' and n.ast is c:
               cond_gates.append((n, name))
@@ -74,9 +84,9 @@ def run(check):
           return False
         pol, t = lab
         # "no bucket configured" edge
-        if pol == 'F' and isinstance(t, ast.Name) and is_bucket_expr(t):
+        if pol == 'F' and isinstance(t, ast.Name) and is_bucket_expr(t) and bname(t) == want:
           return True
-        if pol == 'T' and isinstance(t, ast.Call) and bucket_drain_call(t) and cost_ok(t):
+        if pol == 'T' and isinstance(t, ast.Call) and bucket_drain_call(t) and cost_ok(t) and bname(t.func.value) == want:
           return True
         return False
       # start: for write, the drain of the batch; for create: function entry / loop iteration start
@@ -85,8 +95,8 @@ def run(check):
       if s in rr:
         p = g.path(starts, s, removed_nodes=gates, removed_edge=removed_edge, normal_only=True)
         r_gate.violate('%s ungated' % kind, fn, s.ast,
-                       'database.%s() is reachable on a path that neither drains a token from the rate-limit bucket '
-                       'nor established that no bucket is configured' % kind, path=g.describe_path(p))
+                       'database.%s() is reachable on a path that neither drains a token from %s '
+                       'nor established that this bucket is not configured (a peek() spends nothing)' % (kind, want), path=g.describe_path(p))
       else:
         r_gate.ok('%s gated by token bucket' % kind, fn.loc(s.ast))
       # the gate must be re-evaluated for every operation: no path from the site back to itself without a gate
@@ -268,6 +278,7 @@ def run(check):
   # ------------------------------------------------------------------ config
   r_cfg = check.rule('R-C20-config', 2, 'buckets built from MAX_CREATES_PER_MINUTE/60 and MAX_UPDATES_PER_SECOND')
   _config_rule(cx, r_cfg, mod)
+  rule_rerate_optin(check, cx, check.rule('R-C20-rerate-optin', 1, 'buckets are re-rated at run time only from a setting without built-in default (the operator configured it)'))
 
 
 def _config_rule(cx, r_cfg, mod):
@@ -433,3 +444,44 @@ def _refill_discipline(check, rule, m, g):
                    'self.timestamp: the same interval is credited again by the next refill', path=g.describe_path(p))
     else:
       rule.ok('clock advanced after the credit on every path', m.loc(src.ast), short(src.ast))
+
+
+def rule_rerate_optin(check, cx, rule):
+  """the limits an operator configured are changed at run time only on the operator's own say-so: every setting a caller of
+  setCapacityAndFillRate() takes the new rate from has NO built-in default in carbon.conf, so its presence means it was
+  configured.  With a default (MAX_UPDATES_PER_SECOND_ON_SHUTDOWN=1000) every shutdown re-rates both buckets to 1000/s although
+  MAX_UPDATES_PER_SECOND / MAX_CREATES_PER_MINUTE asked for less."""
+  from ..rulelib import conf_defaults, local_sources
+  defaults = conf_defaults(check.repo)
+  if not rule.require(defaults is not None, 'carbon.conf defaults table not found'):
+    return
+  n = 0
+  for fn in check.repo.all_functions():
+    if fn.module.name == 'carbon.util' or isinstance(fn.node, ast.Lambda):
+      continue
+    calls = [c for c in walk_no_nested(fn.node, include_self=False) if isinstance(c, ast.Call) and isinstance(c.func, ast.Attribute) and
+             c.func.attr == 'setCapacityAndFillRate']
+    if not calls:
+      continue
+    opts = set()
+    for c in calls:
+      for a in list(c.args) + [k.value for k in c.keywords]:
+        exprs = [a]
+        for x in ast.walk(a):
+          if isinstance(x, ast.Name):
+            exprs += [s for s in local_sources(fn, x.id) if isinstance(s, ast.AST)]
+        for e in exprs:
+          opts |= {x.attr for x in ast.walk(e) if isinstance(x, ast.Attribute) and isinstance(x.value, ast.Name) and x.value.id == 'settings'}
+          opts |= {x.slice.value for x in ast.walk(e) if isinstance(x, ast.Subscript) and isinstance(x.value, ast.Name) and
+                   x.value.id == 'settings' and isinstance(x.slice, ast.Constant)}
+    for o in sorted(opts):
+      n += 1
+      if o in defaults:
+        rule.violate('run-time re-rating without being configured', 'carbon.conf:<module>', defaults[o], '%s() re-rates the token buckets '
+                     'from settings.%s, and carbon.conf gives that option a built-in default (`%s`): the branch that leaves the '
+                     'configured limits alone when the option is absent is dead, so the configured MAX_UPDATES_PER_SECOND / '
+                     'MAX_CREATES_PER_MINUTE stop holding as soon as it runs' % (fn.qualname, o, short(defaults[o], 30)),
+                     construct='defaults[%s]' % o)
+      else:
+        rule.ok('%s re-rates from settings.%s, which has no built-in default (operator opt-in)' % (fn.qualname, o), fn.loc(calls[0]))
+  rule.require(n >= 1, 'no caller of setCapacityAndFillRate() taking its rate from a setting found')
